@@ -613,6 +613,14 @@ def run(chk):
                 add_single(ts, top)
         for _ in range(40000):
             add_single(tuple(rng.choice(RAW) for _ in range(4)), rng.choice(TOPS))
+    # ---- roles that contain one another (':R' inside ':R-of', ':op1' inside ':op10'): a filter selects by EQUALITY
+    sub_roles = [':R', ':R-of', ':op1', ':op10', ':R-of-of', 'R-of', ':instance', ':instance-of']
+    for _ in range(1500 if quick else 15000):
+        ts = tuple((rng.choice(SRC), rng.choice(sub_roles), rng.choice(TGT)) for _ in range(rng.randint(1, 5)))
+        fs = [(rng.choice([None, None, 'a']), norm_role(rng.choice(ts)[1]) if rng.random() < .7 else rng.choice(sub_roles),
+               rng.choice([None, None, 'b'])) for _ in range(6)]
+        singles.append((mk_spec(rng, ts, rng.choice(TOPS)), fs))
+        chk.count(('single-subroles', ts), nontrivial=True)
     for s in singles[100:20000:4001]:
         chk.sample(case_of('single', s))
     run_kind(chk, exe, 'single', singles, chunk=500)
